@@ -92,6 +92,9 @@ pub const IO_MARKER_TMP: u32 = 4;
 pub const IO_MARKER_RENAME: u32 = 5;
 pub const IO_FILE_CREATE: u32 = 6;
 pub const IO_BATCH_SUBMIT: u32 = 7;
+/// every positional write that goes through the storage layer (`SharedMmap::write`): entry writes of
+/// `append` and of the sequential batch path, header zeroing
+pub const IO_STORAGE_WRITE: u32 = 8;
 /// matches every event kind (used to count "the n-th I/O event of any kind")
 pub const IO_ANY: u32 = 99;
 
